@@ -655,6 +655,15 @@ func TestReplay(t *testing.T) {
 	if path == "" {
 		t.Skip("VERIF_REPLAY not set")
 	}
+	var tagged struct {
+		Kind string  `json:"kind"`
+		HB   *HBCase `json:"hb"`
+	}
+	if err := evid.LoadReplay(path, &tagged); err == nil && tagged.Kind == "httpbody" && tagged.HB != nil {
+		vs, _ := CheckHB(*tagged.HB)
+		evid.Report(t, prop, map[string]any{"kind": "httpbody", "hb": *tagged.HB}, vs)
+		return
+	}
 	var c Case
 	if err := evid.LoadReplay(path, &c); err != nil {
 		t.Fatal(err)
